@@ -344,6 +344,11 @@ class CallMixin(ExprMixin):
                 return Closure(self.P.find_function(rel, qn), None)
             m = self.P.modules[rel]
             return Closure(m.functions[qn], None)
+        if t.startswith("class:"):
+            return self.external_value(t[6:])
+        if t.startswith("classval:"):
+            rel, _, cn = t[9:].rpartition(":")
+            return ClassVal(self.P.by_relpath[rel].classes[cn])
         if t.startswith("exc:"):
             cls = self.class_by_name(t[4:])
             return self.make_exc(st, cls, ())
